@@ -7,9 +7,11 @@ property's check (and related checks when the own check misses), undo it; (3) st
 /verif/seeded/<ID>-<v>/ with meta.json.
 """
 import json, os, subprocess, sys, shutil, re, time
+ROOT = os.environ.get("MUT_ROOT", "/tmp/mut")
+SUFFIX = os.environ.get("MUT_SUFFIX", "")
 ENV = dict(os.environ, GOFLAGS="-mod=mod", GOPROXY="off", GOSUMDB="off", GOTOOLCHAIN="local")
-REL = {"x/aol/types": ["C16", "C18", "C08", "C01"], "x/aol/keeper": ["C01", "C02", "C13", "C08", "C17"], "x/aol": ["C08"],
-       "x/did/types": ["C16", "C17", "C11", "C03", "C08"], "x/did/keeper": ["C03", "C04", "C05", "C11", "C08"], "x/did": ["C08"],
+REL = {"app": ["C19", "C10", "C09"], "app/upgrades": ["C19"], "x/aol/types": ["C16", "C18", "C08", "C01"], "x/aol/keeper": ["C01", "C02", "C13", "C10", "C08", "C17"], "x/aol": ["C08"],
+       "x/did/types": ["C16", "C17", "C11", "C03", "C08"], "x/did/keeper": ["C03", "C04", "C05", "C10", "C11", "C08"], "x/did": ["C08"],
        "x/pnft/types": ["C12", "C06", "C08", "C16"], "x/pnft/keeper": ["C06", "C12", "C08"], "x/pnft": ["C08"],
        "x/burn": ["C07"], "types/compkey": ["C18", "C01"], "x/did/client/crypto": ["C17", "C20"]}
 
@@ -18,8 +20,8 @@ def sh(cmd, cwd, timeout=3600):
     return r.returncode, (r.stdout + r.stderr)
 
 def confirm(ID, v, out):
-    wt = "/tmp/mut/%s" % ID
-    d = "/tmp/mut/%s.out/%s" % (ID, v)
+    wt = "%s/%s" % (ROOT, ID)
+    d = "%s/%s.out/%s" % (ROOT, ID, v)
     demo_path = open(os.path.join(d, "demo_path.txt")).read().strip()
     sh("git checkout -- . && git clean -fdq", wt)
     rc, o = sh("git apply %s/patch.diff" % d, wt)
@@ -55,10 +57,10 @@ def main():
     todo = sys.argv[1:]
     for item in todo:
         ID, v = item.split("/")
-        d = "/tmp/mut/%s.out/%s" % (ID, v)
+        d = "%s/%s.out/%s" % (ROOT, ID, v)
         if not os.path.exists(os.path.join(d, "patch.diff")):
             print(item, "missing"); continue
-        dest = "/verif/seeded/%s-%s" % (ID, v)
+        dest = "/verif/seeded/%s-%s%s" % (ID, SUFFIX, v)
         ok, why = confirm(ID, v, d)
         meta = {"property": ID, "variant": v, "confirmed": ok, "confirmation": why,
                 "notes": open(os.path.join(d, "notes.txt")).read() if os.path.exists(os.path.join(d, "notes.txt")) else ""}
@@ -79,7 +81,7 @@ def main():
                 cands = [ID]
                 for f in files:
                     for k, vs in REL.items():
-                        if f.startswith(k + "/") and os.path.dirname(f) == k:
+                        if f.startswith(k + "/") and (os.path.dirname(f) == k or k == "app/upgrades"):
                             cands += [c for c in vs if c not in cands]
                 detected = False
                 for c in cands:
@@ -91,7 +93,7 @@ def main():
                         detected = True
                         if c == ID or len(runs) >= 2:
                             break
-                    if len(runs) >= 4:
+                    if len(runs) >= 5:
                         break
                 meta["checks_run"] = runs
                 meta["detected_by"] = [r["check"] for r in runs if r["exit"] == 1]
